@@ -49,7 +49,7 @@ def build_driver():
 
 def tree_hash(repo, profile, crate):
     h = hashlib.sha256()
-    h.update(("profile=%s crate=%s\n" % (profile, crate)).encode())
+    h.update(("profile=%s crate=%s root=%s\n" % (profile, crate, repo)).encode())
     files = []
     for name in ("Cargo.toml", "Cargo.lock"):
         p = os.path.join(repo, name)
@@ -68,19 +68,20 @@ def tree_hash(repo, profile, crate):
     return h.hexdigest()[:24]
 
 
-def get_facts(repo="/repo", profile="dev", crate="neurons", quiet=False):
+def get_facts(repo="/repo", profile="dev", crate="neurons", quiet=False, slot=""):
     repo = os.path.abspath(repo)
     build_driver()
     key = tree_hash(repo, profile, crate)
     d = os.path.join(CACHE, "facts", key)
     out = os.path.join(d, "facts.json")
     os.makedirs(os.path.join(CACHE, "facts"), exist_ok=True)
-    lockp = os.path.join(CACHE, "lock-" + profile)
+    slot = slot or os.environ.get("NN_VERIF_SLOT", "")
+    lockp = os.path.join(CACHE, "lock-" + profile + slot)
     with open(lockp, "w") as lk:
         fcntl.flock(lk, fcntl.LOCK_EX)
         if not os.path.exists(out):
             os.makedirs(d, exist_ok=True)
-            tdir = os.path.join(CACHE, "target-" + profile)
+            tdir = os.path.join(CACHE, "target-" + profile + slot)
             # cargo's freshness cache would skip the wrapper on a warm target dir
             fp = os.path.join(tdir, "debug", ".fingerprint")
             if os.path.isdir(fp):
